@@ -200,3 +200,18 @@ class ClassModel:
             if p is not None:
                 return p(obj)
         raise AnalysisError(f"anchor vanished: {self.where}: no method {mname} on {obj.kinds}")
+
+
+def new_parser_state(cm: ClassModel, text: str, pos: int, parser: Any, where: str) -> Obj:
+    """ParserState(...) with the arguments bound by role (the parameter that seeds
+    self.input / self.pos / self.parser), so a reordered or renamed signature is followed."""
+    from .binding import field_sources  # noqa: PLC0415
+
+    init = cm._resolve("ParserState", "__init__")  # noqa: SLF001
+    if init is None:
+        raise AnalysisError(f"{where}: anchor vanished: ParserState.__init__")
+    fs = field_sources(init)
+    missing = [f for f in ("input", "pos", "parser") if f not in fs]
+    if missing:
+        raise AnalysisError(f"{where}: ParserState.__init__ does not set {missing} from a parameter")
+    return cm.new("ParserState", **{fs["input"]: text, fs["pos"]: pos, fs["parser"]: parser})
